@@ -5,13 +5,15 @@ import DudModel.Lemmas.Holds
 import DudModel.Lemmas.Compat
 import DudModel.Lemmas.Codec
 import DudModel.Props.C01
+import DudModel.Generated.Facts
 /-!
 # C16 — an artifact's checksum depends only on its path and content
 
 * `recommit_post` / `recommit_digest`: committing a plain tree on top of *any* compatible old
   manifest records `treeDigest` — the digest of a from-scratch commit.
-* `type_swap_recommit_fails`: without compatibility (an entry changed between file and directory)
-  the recommit fails: `commitWorker` reuses the old child's `IsDir`.
+* `recommit_after_edit`, `type_swap_recommit_ok`: after any edit — in particular an entry that
+  changed between file and directory — the recommit succeeds: `commitWorker` reuses the old child
+  only if its kind agrees.
 * `treeDigest_perm`, `commit_perm_digest`: the listing order is irrelevant.
 * `treeDigest_injective`: different trees get different checksums (given an injective codec).
 * `commit_keys`: which objects a commit adds (equal contents share one object).
@@ -82,23 +84,52 @@ theorem rnil_post (ctx : Ctx κ) : REntriesPost ctx [] := by
   exact ⟨s, by simp [commitEntries, childrenOf, wsAfterList_nil], hc, Store.le_refl _ _,
     by simp [HoldsList], fun _ => Store.le_refl _ _, fun d hd => Or.inl hd⟩
 
+/-- which child artifact `commitEntries` starts from for the first entry -/
+theorem commitEntries_cons_eq (ctx : Ctx κ) (strat : Strat) (nm : Name) (n : Node κ)
+    (r : List (Name × Node κ)) (old : List Child) (s : Store κ) (hnm : ctx.nameOK nm = true) :
+    ∃ c, (c = ⟨nm, "", n.isDir⟩ ∨ ∃ k, findChild old nm = some k ∧ k.isDir = n.isDir ∧ c = k) ∧
+      commitEntries ctx strat false ((nm, n) :: r) old s =
+        match commitNode ctx strat n c s with
+        | .error e => .error e
+        | .ok (n', c', s1) =>
+          match commitEntries ctx strat false r old s1 with
+          | .error e => .error e
+          | .ok (r', cs, s2) => .ok ((nm, n') :: r', c' :: cs, s2) := by
+  cases hf : findChild old nm with
+  | none =>
+    refine ⟨⟨nm, "", n.isDir⟩, Or.inl rfl, ?_⟩
+    simp only [commitEntries, Bool.false_and, Bool.false_eq_true, if_false, hnm, Bool.not_true, hf]
+    rfl
+  | some k =>
+    by_cases hkd : k.isDir = n.isDir
+    · refine ⟨k, Or.inr ⟨k, rfl, hkd, rfl⟩, ?_⟩
+      simp only [commitEntries, Bool.false_and, Bool.false_eq_true, if_false, hnm, Bool.not_true,
+        hf, hkd, beq_self_eq_true, if_true]
+      rfl
+    · refine ⟨⟨nm, "", n.isDir⟩, Or.inl rfl, ?_⟩
+      have hb : (k.isDir == n.isDir) = false := by simpa using hkd
+      simp only [commitEntries, Bool.false_and, Bool.false_eq_true, if_false, hnm, Bool.not_true,
+        hf, hb]
+      rfl
+
 theorem rcons_post {ctx : Ctx κ} (g : Good ctx) {nm : Name} {n : Node κ}
     {r : List (Name × Node κ)} (hnm : ctx.nameOK nm = true)
     (hn : RNodePost ctx n) (hr : REntriesPost ctx r) : REntriesPost ctx ((nm, n) :: r) := by
   intro old s strat hcompat hc
   simp only [CompatList] at hcompat
   obtain ⟨hk, hcr⟩ := hcompat
-  have hcprops : ∃ c, (findChild old nm).getD ⟨nm, "", n.isDir⟩ = c ∧ c.name = nm ∧
-      c.isDir = n.isDir ∧ CompatNode ctx s n c.sum := by
-    cases hf : findChild old nm with
-    | none => exact ⟨_, rfl, rfl, rfl, compatNode_empty ctx s n⟩
-    | some k => exact ⟨k, rfl, findChild_name hf, (hk k hf).1, (hk k hf).2⟩
-  obtain ⟨c, hceq, hcn, hcd, hcc⟩ := hcprops
+  obtain ⟨c, hcase, hceq⟩ := commitEntries_cons_eq ctx strat nm n r old s hnm
+  have hcprops : c.name = nm ∧ c.isDir = n.isDir ∧ CompatNode ctx s n c.sum := by
+    rcases hcase with rfl | ⟨k, hf, hkd, rfl⟩
+    · exact ⟨rfl, rfl, compatNode_empty ctx s n⟩
+    · exact ⟨findChild_name hf, hkd, hk c hf hkd⟩
+  obtain ⟨hcn, hcd, hcc⟩ := hcprops
   obtain ⟨s1, hcommit, hc1, hle1, hh1, hback1, hkeys1⟩ := hn c s strat hcd hcc hc
   obtain ⟨s2, hcr', hc2, hle2, hh2, hback2, hkeys2⟩ :=
     hr old s1 strat (CompatList.mono g hle1 r old hcr) hc1
   refine ⟨s2, ?_, hc2, Store.le_trans hle1 hle2, ?_, ?_, ?_⟩
-  · simp [commitEntries, hnm, hceq, hcommit, hcr', childrenOf, hcn, hcd, wsAfterList_cons]
+  · rw [hceq]
+    simp [hcommit, hcr', childrenOf, hcn, hcd, wsAfterList_cons]
   · simp only [HoldsList]
     rw [hcn] at hh1
     exact ⟨HoldsNode.mono hle2 n _ nm hh1, hh2⟩
@@ -210,57 +241,52 @@ theorem digest_history_independent (ctx : Ctx κ) (g : Good ctx) (t : Node κ)
   obtain ⟨s₂', h₂, _⟩ := recommitNode_post g t hp hn c₂ s₂ strat₂ hd₂ hk₂ hc₂
   exact ⟨_, _, _, _, s₁', s₂', h₁, h₂, by simp [hname]⟩
 
-/-! ## (b) negative witness: an entry that changed between file and directory -/
+/-! ## (b) recommit after an arbitrary edit, in particular a file ↔ directory swap -/
 
-/-- In a store holding the committed directory `es`, recommitting a listing whose first entry `x`
-is now a *directory* while the old manifest recorded a *file* fails: the old child's `IsDir` is
-reused ("expected regular file"). -/
-theorem type_swap_file_to_dir_fails {ctx : Ctx κ} (g : Good ctx) {es : List (Name × Node κ)}
-    {nm : Bytes} (hs : sortedList es = true) (hn : NamesOKList ctx es) {s : Store κ}
-    (hh : HoldsNode ctx s newChoice nm (.dir es)) {x : Name} {n1 : Node κ}
-    (hmem : (x, n1) ∈ es) (hfile : n1.isDir = false)
-    (es2 r2 : List (Name × Node κ)) (strat : Strat) :
-    commitNode ctx strat (.dir ((x, .dir es2) :: r2)) ⟨nm, treeDigest ctx nm (.dir es), true⟩ s
-      = .error .notRegular := by
-  have hold := oldManifest_holds g hs hn hh
-  have hfind := findChild_childrenAs ctx newChoice es hs (x, n1) hmem
-  rw [digestAs_new] at hold
-  have hx : ctx.nameOK x = true := (hn x (mem_allNamesList_of_mem hmem)).1
-  simp [commitNode, hold, commitEntries, hx, hfind, hfile]
+/-- **Recommit after any edit.**  In a consistent store holding the committed tree `t1` (manifests
+of any schemas), committing *any* plain tree `t2` of the same top-level kind, with the child
+artifact recorded for `t1`, succeeds and records `treeDigest ctx nm t2`.  Entry by entry the old
+child is reused only where the kinds still agree. -/
+theorem recommit_after_edit (ctx : Ctx κ) (g : Good ctx) (t1 t2 : Node κ) (ch : Choice) (nm : Bytes)
+    (hs1 : t1.sorted = true) (hn1 : NamesOK ctx t1)
+    (hp2 : t2.plain = true) (hn2 : NamesOK ctx t2) (hd : t1.isDir = t2.isDir)
+    (s : Store κ) (hc : Consistent ctx s) (hh : HoldsNode ctx s ch nm t1) (strat : Strat) :
+    ∃ s', commitNode ctx strat t2 ⟨nm, digestAs ctx ch nm t1, t1.isDir⟩ s =
+        .ok (wsAfter ctx strat t2, ⟨nm, treeDigest ctx nm t2, t1.isDir⟩, s') ∧
+      Consistent ctx s' ∧ Store.le ctx s s' ∧ HoldsNode ctx s' newChoice nm t2 ∧
+      deref ctx s' (wsAfter ctx strat t2) = t2 := by
+  obtain ⟨s', h, hc', hle, hh', _⟩ := recommitNode_post g t2 hp2 hn2
+    ⟨nm, digestAs ctx ch nm t1, t1.isDir⟩ s strat hd (compatNode_any g t2 t1 ch nm hs1 hn1 hh hd) hc
+  exact ⟨s', h, hc', hle, hh', deref_wsAfter hp2 hh' strat⟩
 
-/-- … and the other way round: a directory replaced by a regular file ("readDir on a file"). -/
-theorem type_swap_dir_to_file_fails {ctx : Ctx κ} (g : Good ctx) {es : List (Name × Node κ)}
-    {nm : Bytes} (hs : sortedList es = true) (hn : NamesOKList ctx es) {s : Store κ}
-    (hh : HoldsNode ctx s newChoice nm (.dir es)) {x : Name} {n1 : Node κ}
-    (hmem : (x, n1) ∈ es) (hdir : n1.isDir = true)
-    (y : κ) (r2 : List (Name × Node κ)) (strat : Strat) :
-    commitNode ctx strat (.dir ((x, .file y) :: r2)) ⟨nm, treeDigest ctx nm (.dir es), true⟩ s
-      = .error .notDir := by
-  have hold := oldManifest_holds g hs hn hh
-  have hfind := findChild_childrenAs ctx newChoice es hs (x, n1) hmem
-  rw [digestAs_new] at hold
-  have hx : ctx.nameOK x = true := (hn x (mem_allNamesList_of_mem hmem)).1
-  simp [commitNode, hold, commitEntries, hx, hfind, hdir]
-
-/-- **C16 (b).** Commit a directory, change the type of its first entry, recommit with the child
-artifact the first commit recorded: failure.  (A genuine defect of the Go code: the type of the
-old child wins over what is in the workspace.) -/
-theorem type_swap_recommit_fails (ctx : Ctx κ) (g : Good ctx) (nm : Bytes) (x : Name)
-    (n1 : Node κ) (r : List (Name × Node κ))
-    (hp : (Node.dir ((x, n1) :: r)).plain = true) (hs : (Node.dir ((x, n1) :: r)).sorted = true)
-    (hn : NamesOK ctx (.dir ((x, n1) :: r))) (s : Store κ) (hc : Consistent ctx s)
-    (strat strat2 : Strat) :
-    ∃ t' c' s', commitNode ctx strat (.dir ((x, n1) :: r)) ⟨nm, "", true⟩ s = .ok (t', c', s') ∧
-      (n1.isDir = false → ∀ es2 r2,
-        commitNode ctx strat2 (.dir ((x, .dir es2) :: r2)) c' s' = .error .notRegular) ∧
-      (n1.isDir = true → ∀ y r2,
-        commitNode ctx strat2 (.dir ((x, .file y) :: r2)) c' s' = .error .notDir) := by
-  obtain ⟨s', h, _, _, hh, _⟩ := recommitNode_post g _ hp hn ⟨nm, "", true⟩ s strat rfl
+/-- **C16 (b), positive (the Go fix).**  Commit a directory where `x` is a file (resp. a
+directory); replace `x` by a directory (resp. a file), edit the rest at will; recommit with the
+child artifact the first commit recorded: success, and the digest is that of the new tree. -/
+theorem type_swap_recommit_ok (ctx : Ctx κ) (g : Good ctx) (nm : Bytes)
+    (es1 es2 : List (Name × Node κ))
+    (hp1 : (Node.dir es1).plain = true) (hs1 : (Node.dir es1).sorted = true)
+    (hn1 : NamesOK ctx (.dir es1))
+    (hp2 : (Node.dir es2).plain = true) (hn2 : NamesOK ctx (.dir es2))
+    (s : Store κ) (hc : Consistent ctx s) (strat strat2 : Strat) :
+    ∃ t' c' s', commitNode ctx strat (.dir es1) ⟨nm, "", true⟩ s = .ok (t', c', s') ∧
+      ∃ t'' c'' s'', commitNode ctx strat2 (.dir es2) c' s' = .ok (t'', c'', s'') ∧
+        c''.sum = treeDigest ctx nm (.dir es2) ∧ c''.name = nm ∧ c''.isDir = true ∧
+        deref ctx s'' t'' = .dir es2 ∧ Consistent ctx s'' ∧ Store.le ctx s' s'' := by
+  obtain ⟨s', h, hc', _, hh, _⟩ := recommitNode_post g _ hp1 hn1 ⟨nm, "", true⟩ s strat rfl
     (compatNode_empty ctx s _) hc
-  have hs' : sortedList ((x, n1) :: r) = true := by simpa [Node.sorted] using hs
-  exact ⟨_, _, s', h,
-    fun hf es2 r2 => type_swap_file_to_dir_fails g hs' (namesOK_dir hn) hh (by simp) hf es2 r2 _,
-    fun hd y r2 => type_swap_dir_to_file_fails g hs' (namesOK_dir hn) hh (by simp) hd y r2 _⟩
+  obtain ⟨s'', h2, hc'', hle, _, hd⟩ := recommit_after_edit ctx g (.dir es1) (.dir es2) newChoice nm
+    hs1 hn1 hp2 hn2 rfl s' hc' hh strat2
+  rw [digestAs_new] at h2
+  exact ⟨_, _, s', h, _, _, s'', h2, rfl, rfl, rfl, hd, hc'', hle⟩
+
+/-- What is still refused: the *top-level* artifact's declared kind (the stage file's `is-dir`)
+must agree with the workspace. -/
+theorem commitNode_kind_mismatch (ctx : Ctx κ) (strat : Strat) (s : Store κ) (c : Child) :
+    (∀ es, c.isDir = false → commitNode ctx strat (.dir es) c s = .error .notRegular) ∧
+    (∀ x, c.isDir = true → commitNode ctx strat (.file x) c s = .error .notDir) := by
+  constructor
+  · intro es h; simp [commitNode, h]
+  · intro x h; simp [commitNode, h]
 
 /-! ## (e) listing order -/
 
@@ -498,25 +524,44 @@ def recommitEdited (strat strat2 : Strat) : String :=
 #eval recommitEdited .link .copy
 #eval recommitEdited .copy .link
 
-/-- (b) `a` was a file and is a directory now / `b` was a directory and is a file now -/
+/-- the example tree with `a` turned into a directory and `b` into a file -/
+def treeSwapped : Node K :=
+  .dir [([97], .dir [([120], .file (.raw "x"))]),
+        ([98], .file (.raw "was a directory")),
+        ([101], .file (.raw "alpha"))]
+
+/-- (b) `a` was a file and is a directory now, `b` was a directory and is a file now: the
+recommit on top of the old manifest succeeds with the digest of the new tree -/
 example (strat strat2 : Strat) :
     ∃ t' c' s', commitNode ctx strat tree ⟨[116], "", true⟩ [] = .ok (t', c', s') ∧
-      commitNode ctx strat2 (.dir [([97], .dir [])]) c' s' = .error .notRegular := by
-  obtain ⟨t', c', s', h, h1, _⟩ := type_swap_recommit_fails ctx good [116] [97]
-    (.file (.raw "alpha")) _ tree_plain tree_sorted tree_names [] empty_consistent strat strat2
-  exact ⟨t', c', s', h, h1 rfl [] []⟩
+      ∃ t'' c'' s'', commitNode ctx strat2 treeSwapped c' s' = .ok (t'', c'', s'') ∧
+        c''.sum = treeDigest ctx [116] treeSwapped ∧ deref ctx s'' t'' = treeSwapped := by
+  obtain ⟨t', c', s', h, t'', c'', s'', h2, hsum, _, _, hd, _⟩ :=
+    type_swap_recommit_ok ctx good [116] _ _ tree_plain tree_sorted tree_names
+      (show treeSwapped.plain = true by simp [treeSwapped, Node.plain, plainList])
+      (fun _ _ => ⟨rfl, fun _ _ _ => rfl⟩) [] empty_consistent strat strat2
+  exact ⟨t', c', s', h, t'', c'', s'', h2, hsum, hd⟩
 
 def typeSwap (t2 : Node K) : String :=
   match commitNode ctx .link tree ⟨[116], "", true⟩ [] with
   | .error e => s!"commit error {e}"
   | .ok (_, c', s') =>
     match commitNode ctx .link t2 c' s', commitNode ctx .link t2 ⟨[116], "", true⟩ [] with
-    | .error e, .ok _ => s!"recommit fails with {e}; a from-scratch commit succeeds"
-    | .error e, .error e' => s!"recommit fails with {e}; from scratch fails with {e'}"
-    | .ok _, _ => "recommit ok"
+    | .error e, _ => s!"recommit fails with {e}"
+    | .ok (t'', c'', s''), .ok (_, c0, _) =>
+      s!"recommit ok; sum = treeDigest of the new tree: {c''.sum == treeDigest ctx [116] t2}; " ++
+      s!"same as from scratch: {c''.sum == c0.sum}; " ++
+      s!"logical content kept: {nodeBEq (deref ctx s'' t'') t2}"
+    | .ok _, .error e => s!"recommit ok, from scratch fails with {e}"
 
+#eval typeSwap treeSwapped
 #eval typeSwap (.dir [([97], .dir [([120], .file (.raw "x"))])])
 #eval typeSwap (.dir [([97], .file (.raw "alpha")), ([98], .file (.raw "was a directory"))])
+
+-- the top-level artifact's declared kind is still checked
+#eval match commitNode ctx .link tree ⟨[116], "", false⟩ [] with
+  | .error e => s!"top-level kind mismatch: error {e}"
+  | .ok _ => "ok"
 
 /-- (e) two listing orders of the example directory -/
 def treeRev : Node K :=
@@ -543,9 +588,17 @@ example : treeDigest ctx [116] tree ≠ treeDigest ctx [116] tree2 := by
 
 end Example
 
+
+/-! ## regenerated fact about the Go source (`commitWorker`) -/
+
+/-- the worker reuses the old child artifact, and only when its kind agrees -/
+theorem worker_kind_fact :
+    Dud.Facts.workerChecksKind = true ∧ Dud.Facts.workerReusesOldChild = true := by decide
+
 #print axioms Store.has_put
 #print axioms rfile_post
 #print axioms rnil_post
+#print axioms commitEntries_cons_eq
 #print axioms rcons_post
 #print axioms rdir_post
 #print axioms recommitNode_post
@@ -553,9 +606,9 @@ end Example
 #print axioms recommit_post
 #print axioms recommit_digest
 #print axioms digest_history_independent
-#print axioms type_swap_file_to_dir_fails
-#print axioms type_swap_dir_to_file_fails
-#print axioms type_swap_recommit_fails
+#print axioms recommit_after_edit
+#print axioms type_swap_recommit_ok
+#print axioms commitNode_kind_mismatch
 #print axioms plainList_iff
 #print axioms mem_allNamesList_iff
 #print axioms commit_perm_digest
@@ -568,5 +621,8 @@ end Example
 #print axioms holds_allDigests
 #print axioms holdsList_allDigests
 #print axioms commit_keys
+#print axioms worker_kind_fact
+#print axioms compatNode_any
+#print axioms compatList_any
 
 end Dud
